@@ -143,7 +143,8 @@ def ladder(ctx, L):
     expand(top[0], [])
     classes = {
         'scalar / enum / bytes / optional scalar': dict(array=False, comp_elem=False, composite=False, dynamic=False, bound=False, none_dst=False),
-        'composite': dict(array=False, comp_elem=False, composite=True, dynamic=False, bound=False, none_dst=False),
+        'struct-typed field': dict(array=False, comp_elem=False, composite=True, dynamic=False, bound=False, none_dst=False, kind='struct'),
+        'union-typed field': dict(array=False, comp_elem=False, composite=True, dynamic=False, bound=False, none_dst=False, kind='union'),
         'optional composite (present in source)': dict(array=False, comp_elem=False, composite=True, dynamic=False, bound=False, none_dst=True),
         'fixed scalar array': dict(array=True, comp_elem=False, composite=False, dynamic=False, bound=False, none_dst=False),
         'limited scalar array': dict(array=True, comp_elem=False, composite=False, dynamic=False, bound=True, none_dst=False),
@@ -167,6 +168,10 @@ def ladder(ctx, L):
             return c['bound']
         if s == 'codec_kind.is_composite(type(rhs))':
             return c['composite']
+        if s == 'codec_kind.is_struct(type(rhs))':
+            return c['composite'] and c.get('kind', 'struct') == 'struct'
+        if s == 'codec_kind.is_union(type(rhs))':
+            return c['composite'] and c.get('kind', 'struct') == 'union'
         if isinstance(t, ast.BoolOp):
             vs = [val(v, c) for v in t.values]
             return all(vs) if isinstance(t.op, ast.And) else any(vs)
@@ -200,7 +205,7 @@ def ladder(ctx, L):
             why = 'immutable values are stored directly'
         L.check(ok, 'C11b.branch-assumptions', 'set_field|' + name, f.site(hit[0][2]),
                 'a `%s` field reaches the branch `%s`: %s' % (name, body, why), body)
-    L.floor('C11b.branch-assumptions', L.rule_count('C11b.branch-assumptions'), 11)
+    L.floor('C11b.branch-assumptions', L.rule_count('C11b.branch-assumptions'), 12)
 
 
 def extend_copies(ctx, L):
